@@ -49,6 +49,80 @@ def gen_param(r):
     return p
 
 
+JOIN_MODULE = "CddVerif.Properties.C10Join"
+JOIN_THEOREMS = ["C10Join." + t for t in ["join_empty_primacy", "join_empty_other", "join_value_spec", "join_primacy_wins", "join_other_fills", "join_none_stays", "join_get", "join_wf",
+                                          "join_map_indep", "join_keys_perm", "join_sameMap", "join_keys_spec", "join_order_differs_iff", "join_eq_of_keys_eq",
+                                          "join_deterministic_of_le_one_fresh", "join_order_witness", "irMergeReturns_order_witness", "reader_indep", "irMergeReturns_sameMap",
+                                          "irMergeReturns_no_oracle", "mergePresentD_toParam", "mergePresent_other_joined", "mergePresent_target_joined",
+                                          "mergePresent_target_order_witness"]]
+JOIN_KEYS = ["name", "typ", "doc", "default", "required", "x", "y", "z", "", "Typ"]
+JOIN_VALS = [None, None, None, "int", "str", "", "the thing", 0, 5, 1.5, True, False, "None", [], [1], ("a",), {}]
+
+
+def _jenc(v):
+    return None if v is None else "%s:%r" % (type(v).__name__, v)
+
+
+def impl_join(case):
+    """the real _join_non_none with the frozenset's iteration order FORCED (the builtin name is shadowed in the module's globals for the call)"""
+    import copy
+
+    import cdd.class_.parse  # noqa: F401
+    import cdd.shared.parse.utils.parser_utils as pu
+
+    p, o, order = case
+    p, o = copy.deepcopy(p), copy.deepcopy(o)
+
+    def forced(it):
+        have = list(dict.fromkeys(it))
+        return [k for k in order if k in have] + [k for k in have if k not in order]
+
+    pu.frozenset = forced
+    try:
+        r = pu._join_non_none(p, o)
+    except Exception as e:  # noqa
+        return {"raises": core.exc_name(e)}
+    finally:
+        del pu.frozenset
+    return {"joined": [[k, _jenc(v)] for k, v in r.items()]}
+
+
+def join_stream(chk, rng):
+    """_join_non_none (the set iteration inside ir_merge): model = real for forced iteration orders; the result as a MAP must not depend on the order"""
+    import copy
+
+    n = 1500 if chk.quick else 20000
+    cases = []
+    for _ in range(n):
+        p = {k: copy.deepcopy(rng.choice(JOIN_VALS)) for k in rng.sample(JOIN_KEYS, rng.randint(0, 6))}
+        o = {k: copy.deepcopy(rng.choice(JOIN_VALS)) for k in rng.sample(JOIN_KEYS, rng.randint(0, 6))}
+        ks = list(dict.fromkeys(list(p) + list(o)))
+        o1, o2 = ks[:], ks[:]
+        rng.shuffle(o1)
+        rng.shuffle(o2)
+        cases.append((p, o, o1))
+        cases.append((p, o, o2))
+    real = core.pmap(impl_join, cases)
+    model = core.model_batch([{"op": "c10.join", "primacy": [[k, _jenc(v)] for k, v in p.items()], "other": [[k, _jenc(v)] for k, v in o.items()], "order": order} for p, o, order in cases]) \
+        if core.DRIVER.exists() else None
+    n_dis = n_order = 0
+    for i, (case, r) in enumerate(zip(cases, real)):
+        fresh = [k for k in case[1] if k not in case[0] and case[1][k] is not None]
+        chk.count(("join", json.dumps([list(case[0].items()), list(case[1].items()), case[2]], default=repr)), len(fresh) >= 2 and bool(case[0]))
+        if model is not None and model[i].get("joined") != r.get("joined"):
+            n_dis += 1
+            chk.disagreement("C10 correspondence: _join_non_none (forced set order)", {"primacy": [[k, _jenc(v)] for k, v in case[0].items()], "other": [[k, _jenc(v)] for k, v in case[1].items()], "order": case[2]}, r, model[i])
+        if i % 2 == 1 and "joined" in r and "joined" in real[i - 1]:
+            a, b = real[i - 1]["joined"], r["joined"]
+            if sorted(map(json.dumps, a)) != sorted(map(json.dumps, b)):
+                chk.failure({"kind": "join-map-depends-on-set-order"}, "_join_non_none returns different mappings for two iteration orders of the same key set: %s vs %s" % (a, b),
+                            {"fn": "join", "primacy": list(case[0].items()), "other": list(case[1].items()), "orders": [cases[i - 1][2], case[2]]})
+            n_order += a != b
+    chk.coverage["join_pairs_whose_key_order_differs_between_two_set_orders"] = n_order
+    chk.oblige("correspondence: _join_non_none = JoinNonNone.join under forced set iteration orders on %d calls (key order and values)" % len(cases), "correspondence",
+               n_dis == 0 and model is not None, "%d disagreements" % n_dis)
+
+
 def run_batch(seed, n, mode, hashseed):
     env = dict(os.environ, PYTHONHASHSEED=str(hashseed), PYTHONPATH=str(core.REPO))
     p = subprocess.run([core.PY, BATCH, str(seed), str(n), mode], stdout=subprocess.PIPE, stderr=subprocess.PIPE, text=True, env=env, timeout=1200)
@@ -61,6 +135,7 @@ def run(chk: core.Check) -> int:
     sites = scan(core.REPO)
     core.write_if_changed(core.LEAN / "CddVerif" / "Gen" / "SetIter.lean", to_lean(sites))
     chk.lean(MODULE, THEOREMS)
+    chk.lean(JOIN_MODULE, JOIN_THEOREMS)
     cls = {}
     for s in sites:
         cls[s["cls"]] = cls.get(s["cls"], 0) + 1
@@ -68,6 +143,9 @@ def run(chk: core.Check) -> int:
     chk.trusted_base += [
         "translator harness/translators/setiter.py: syntactic set expressions (literals, set()/frozenset() calls, keys()/items() set algebra) with one hop of name tracking; sets reaching an iteration through two or more bindings, or through function parameters, are not followed (%d sites this run)" % len(sites),
         "model lean/CddVerif/Model/Merge.lean of merge_params/merge_present_params with the set iteration order as an oracle; tied by comparing the merged dict (keys, order, values)",
+        "Model/JoinNonNone.lean: _join_non_none with the frozenset iteration order as an oracle; C10Join proves that the result as a mapping (and everything that reads it by key, "
+        "e.g. merge_present_params with the joined dict as `other`) is independent of the order, characterises the key order exactly (primacy's keys, then the fresh keys in set order) and "
+        "proves when it can differ (two or more fresh keys: the reviewed leak inside one ParamVal); tied to the real function by forcing the iteration order",
         "process-level determinism (hash seed, call history) is *observed* by differential runs in fresh interpreters; the theorem covers merge_params and the site table",
     ]
     rng = chk.rng
@@ -103,6 +181,8 @@ def run(chk: core.Check) -> int:
                     break
     chk.oblige("correspondence: merge_params = Merge.mergeParams (both oracle orders) on %d dict pairs" % len(cases), "correspondence",
                n_dis == 0 and model is not None, "%d disagreements" % n_dis)
+    # ---- (1b) _join_non_none: the other place where a set is iterated on the way to an interface ---------------
+    join_stream(chk, rng)
     # ---- (2) hash-seed / history differential on the real code --------------------------------------------
     n = 150 if chk.quick else 600
     seeds = [0, 1, 2, 3, "random"] if chk.quick else list(range(0, 32)) + ["random", "random"]
